@@ -50,6 +50,8 @@ def prescribe(ctx, jobs, fuel=20000, timeout=1500, workers=None):
 
 
 def job(pid, prog, dev=(), mode="spec", what="main"):
+    if "__files__" in prog:            # the file layout of a multi-file program is not part of its abstract syntax
+        prog = {k: v for k, v in prog.items() if k != "__files__"}
     return {"id": pid, "prog": prog, "dev": list(dev), "mode": mode, "what": what}
 
 
@@ -110,8 +112,13 @@ def run_engines(ctx, progs, engines=("native", "vm"), style="prefix", variant="p
     eng = Engines(ctx, variant)
 
     def one(pid):
-        src = pretty(progs[pid], style)
+        files = progs[pid].get("__files__")
+        src = files["p.nano"] if files else pretty(progs[pid], style)
         d = eng.write(pid, src)
+        for fn_, text in (files or {}).items():
+            eng.write(pid, text, fn_)
+        if files:
+            src = "".join("### %s\n%s\n" % kv for kv in sorted(files.items()))
         r = {"src": src, "dir": d}
         if "native" in engines:
             r["native"] = eng.native(d)
@@ -151,6 +158,9 @@ def attribute(ctx, prop, progs, base, failing, fuel=20000):
         for f in findings_for(prop):
             m = f.get("match", {})
             if m.get("feature") and engine in m.get("engines", []) and has_kind(progs[pid], m["feature"]):
+                out[(pid, engine)] = [f["id"]]
+            if engine in m.get("engines", []) and m.get("source_regex") and "__files__" in progs[pid] and \
+                    any(__import__("re").search(m["source_regex"], t) for t in progs[pid]["__files__"].values()):
                 out[(pid, engine)] = [f["id"]]
     return out
 
